@@ -204,12 +204,21 @@ def engine_b(job):
     t0 = time.process_time()
     width = int(job.get("width", 8))
     timeout_ms = int(job.get("timeout", 60) * 1000)
+    win = job.get("window")            # long strings: concrete pattern, only the last `win` bytes symbolic, concrete seed
     for n in job["lengths"]:
-        bs = [z3.BitVec("b%d" % i, width) for i in range(n)]
-        seed = z3.BitVec("seed", 32)
+        if win:
+            bs = [z3.BitVecVal((i * 37 + 11) & 0xFF, 8) for i in range(n - win)] + \
+                 [z3.BitVec("b%d" % i, 8) for i in range(n - win, n)]
+            seed = z3.BitVecVal(job.get("seed_const", 0), 32)
+        else:
+            bs = [z3.BitVec("b%d" % i, width) for i in range(n)]
+            seed = z3.BitVec("seed", 32)
         q0 = time.time()
         try:
-            out = fn(SymStr(Ch(bvsym.N("var", (b, width), width)) for b in bs), bvsym.N("var", (seed, 32), 32))
+            def node(b):
+                return bvsym.N.lift(b.as_long()) if z3.is_bv_value(b) else bvsym.N("var", (b, width), width)
+            out = fn(SymStr(Ch(node(b)) for b in bs),
+                     bvsym.N.lift(seed.as_long()) if z3.is_bv_value(seed) else bvsym.N("var", (seed, 32), 32))
             if not isinstance(out, bvsym.N):
                 out = bvsym.N.lift(out)
             hi = out.hi
@@ -248,8 +257,8 @@ def engine_b(job):
         res["queries"].append(q)
         if r == "sat":
             m = s.model()
-            cps = [m.eval(b, model_completion=True).as_long() for b in bs]
-            sd = m.eval(seed, model_completion=True).as_long()
+            cps = [b.as_long() if z3.is_bv_value(b) else m.eval(b, model_completion=True).as_long() for b in bs]
+            sd = m.eval(seed, model_completion=True).as_long() if not z3.is_bv_value(seed) else seed.as_long()
             res.update(status="refuted",
                        message="murmur3_32 differs from MurmurHash3_x86_32 for code points %r seed %#x" % (cps, sd),
                        replay={"module": "harness.C14", "fn": "replay_case", "shard": {}, "args": [cps, sd]})
@@ -288,10 +297,30 @@ def fallback(job, why):
             "fallback found no counterexample within its budget: inconclusive" % why, "paths": 0, "counts": {}}
 
 
+def long_guard(job):
+    from pymemcache.client.murmur3 import murmur3_32
+    res = {"status": "confirmed", "message": "", "paths": 0, "counts": {"guard_samples": 0}, "queries": []}
+    for n in job["lengths"]:
+        cps = [(i * 37 + n) & 0xFF for i in range(n)]
+        data = "".join(chr(c) for c in cps)
+        for seed in (0, 1, 0x80000000, 0xFFFFFFFF):
+            try:
+                got = murmur3_32(data, seed)
+            except Exception as e:
+                got = "%s: %s" % (type(e).__name__, e)
+            if got != ref_py(cps, seed):
+                res.update(status="refuted", message="length %d seed %#x: murmur3_32 -> %r, reference %#x" % (n, seed, got, ref_py(cps, seed)),
+                           replay={"module": "harness.C14", "fn": "replay_case", "shard": {}, "args": [cps, seed]})
+                return res
+            res["counts"]["guard_samples"] += 1
+    res["queries"].append({"concrete_samples": res["counts"]["guard_samples"], "note": "guard outside the claim; not solver-decided"})
+    return res
+
+
 def main():
     job = json.loads(sys.argv[1])
     os.environ.pop("VERIF_UNDER_CROSSHAIR", None)
-    r = engine_b(job)
+    r = long_guard(job) if job.get("guard") else engine_b(job)
     if r["status"] == "unsupported":
         r2 = fallback(job, r["message"])
         r2.setdefault("queries", r.get("queries", []))
@@ -312,15 +341,21 @@ def shards(tier):
     # any code point up to 0x10FFFF still yields a 32-bit unsigned value (static width bound, lengths 0..12)
     S.append(dict(runner="harness.C14", fn="engine_b", lengths=list(range(0, 13)), width=21, timeout=60, no_twin=True,
                   shard={"lengths": "0..12", "width": 21}))
+    # outside the solver-decided bound: one concrete differential sample per length 49..1100 and boundary seed (a guard
+    # against length-dependent control-flow slips such as a truncated block count; NOT part of the all-inputs claim)
+    S.append(dict(runner="harness.C14", fn="long_guard", lengths=list(range(49, 1101)), timeout=120, no_twin=True, guard=True,
+                  shard={"lengths": "49..1100", "kind": "concrete differential guard"}))
     return S
 
 
 BOUNDS = {
     "quick": "every string of each length 0..48 (every tail length, 0..12 blocks), all 256 values per byte and all 2^32 seeds "
-             "symbolic: one QF_BV query per length; code points up to 21 bits: static 32-bit width bound, lengths 0..12",
+             "symbolic: one QF_BV query per length; code points up to 21 bits: static 32-bit width bound, lengths 0..12. Outside the claim, as a "
+             "guard only: one concrete differential sample per length 49..1100 x 4 boundary seeds",
     "thorough": "as quick, and every unsat answer re-checked with the independent z3 4.8.12 binary on the SMT-LIB2 dump",
 }
-OUTSIDE = "strings longer than 48 code points (z3 returns unknown at 56); seeds outside [0, 2^32)"
+OUTSIDE = ("strings longer than 48 code points (z3 returns unknown at 56, also for a symbolic window after a concrete prefix): "
+           "beyond 48 nothing is claimed, the concrete guard only hunts for length-dependent slips; seeds outside [0, 2^32)")
 ASSUMPTIONS = [
     "`ord` is rebound in the murmur3 module namespace inside the checking process so that characters are symbolic bytes",
     "control flow of murmur3_32 depends on the length only (a shard parameter); a data-dependent branch raises Unsupported "
